@@ -76,6 +76,16 @@ static void c03(void) {
   free(b);
 }
 
+/* psize <proto> <bytes>: coap_pdu_parse_size on the header + token-extension bytes */
+static void psize(void) {
+  size_t n;
+  uint8_t *b = bytes_of_tok(vtok[2], &n);
+  coap_proto_t proto = proto_of(vtok[1]);
+  if (n == 0 || coap_pdu_parse_header_size(proto, b) > n) puts("short");
+  else printf("%zu\n", coap_pdu_parse_size(proto, b, n));
+  free(b);
+}
+
 static void optparse(void) {
   size_t n;
   uint8_t *b = bytes_of_tok(vtok[1], &n);
@@ -120,12 +130,21 @@ static void optrt(void) {
   free(buf);
 }
 
+static void quiet_log(coap_log_t level, const char *message) { (void)level; (void)message; }
+
 int main(void) {
-  coap_set_log_level(COAP_LOG_EMERG);
+  /* VERIF_LOG_DEBUG=1: every log statement is formatted (the debug dump of a malformed option
+   * list walks the PDU a second time), the text is discarded */
+  if (getenv("VERIF_LOG_DEBUG")) {
+    coap_set_log_handler(quiet_log);
+    coap_set_log_level(COAP_LOG_DEBUG);
+  } else
+    coap_set_log_level(COAP_LOG_EMERG);
   while (next_case(stdin)) {
     if (vntok == 0) { puts(""); continue; }
     if (!strcmp(vtok[0], "c01")) c01();
-    else if (!strcmp(vtok[0], "c03")) c03();
+    else if (!strcmp(vtok[0], "c03") || !strcmp(vtok[0], "c02")) c03();
+    else if (!strcmp(vtok[0], "psize")) psize();
     else if (!strcmp(vtok[0], "optparse")) optparse();
     else if (!strcmp(vtok[0], "optenc")) optenc();
     else if (!strcmp(vtok[0], "optrt")) optrt();
